@@ -10,11 +10,35 @@ SPEC = '''
 #[verifier::external_body] pub struct Instant { x: u8 }
 impl Instant { #[verifier::external_body] pub fn timestamp(&self) -> i64 { unimplemented!() } }
 #[verifier::external_body] fn shim_now() -> Instant { unimplemented!() }
+#[verifier::external_body] pub struct Duration { x: u8 }     // chrono::Duration, opaque
+// "the report made at unix time t is younger than ttl at instant now" (chrono arithmetic, uninterpreted)
+pub uninterp spec fn fresh(now: Instant, t: i64, ttl: Duration) -> bool;
+#[verifier::external_body] fn shim_fresh(now: &Instant, t: i64, ttl: &Duration) -> (r: bool) ensures r == fresh(*now, t, *ttl) { unimplemented!() }
+#[verifier::external_body] fn shim_clone_string(s: &String) -> (r: String) ensures r == *s { unimplemented!() }
+// D9 / D15: all keys of a map, each once
+#[verifier::external_body] fn shim_keys<V>(m: &HashMap<String, V>) -> (r: Vec<String>)
+    ensures forall|k: String| m@.contains_key(k) <==> r@.contains(k), r@.no_duplicates()
+{ unimplemented!() }
+// D16: every entry exactly once, unspecified order
+#[verifier::external_body]
+fn shim_ref_entries<'a, V>(m: &'a HashMap<String, V>) -> (r: (Vec<(&'a String, &'a V)>, Ghost<Seq<String>>))
+    ensures r.1@.no_duplicates(), r.1@.len() == r.0@.len(), forall|k: String| m@.contains_key(k) <==> r.1@.contains(k),
+        forall|i: int| 0 <= i < r.0@.len() ==> *(#[trigger] r.0@[i]).0 == r.1@[i] && m@.contains_key(r.1@[i]) && *r.0@[i].1 == m@[r.1@[i]],
+{ unimplemented!() }
 // string shims: number of pieces of s.split(c), first piece
 pub uninterp spec fn pieces_of(s: Seq<char>, c: char) -> Seq<Seq<char>>;
 #[verifier::external_body] fn shim_split_count(s: &String, c: char) -> (r: usize) ensures r == pieces_of(s@, c).len() { unimplemented!() }
 #[verifier::external_body] fn shim_split_first<'a>(s: &'a String, c: char) -> (r: Option<&'a str>) ensures r is Some <==> pieces_of(s@, c).len() > 0, r matches Some(p) ==> p@ == pieces_of(s@, c)[0] { unimplemented!() }
 #[verifier::external_body] fn shim_to_string(s: &str) -> (r: String) ensures r@ == s@ { unimplemented!() }
+// the reports of one address that are still fresh at `now` (distinct reporters: the map is keyed by reporter id)
+pub open spec fn kept(m: Map<String, i64>, now: Instant, ttl: Duration) -> Map<String, i64> { m.restrict(m.dom().filter(|r: String| fresh(now, m[r], ttl))) }
+pub open spec fn pruned(f0: Map<String, HashMap<String, i64>>, f2: Map<String, HashMap<String, i64>>, now: Instant, ttl: Duration) -> bool {
+    forall|a: String| #![trigger f2.contains_key(a)] #![trigger f0.contains_key(a)] (f2.contains_key(a) <==> (f0.contains_key(a) && kept(f0[a]@, now, ttl).len() > 0)) && (f2.contains_key(a) ==> f2[a]@ == kept(f0[a]@, now, ttl))
+}
+pub open spec fn listed(s: MetaStore, now: Instant, ttl: Duration, quorum: u64, r: Seq<String>) -> bool {
+    r.no_duplicates() && forall|a: String| #![trigger r.contains(a)] r.contains(a) <==>
+        (s.all_proxies@.contains_key(a) && s.failures@.contains_key(a) && kept(s.failures@[a]@, now, ttl).len() >= quorum as usize && kept(s.failures@[a]@, now, ttl).len() > 0)
+}
 pub open spec fn reporters(s: MetaStore, a: String) -> Set<String> { if s.failures@.contains_key(a) { s.failures@[a]@.dom() } else { Set::<String>::empty() } }
 '''
 
@@ -46,6 +70,21 @@ def build(U):
     g.sub('R-kw', r'\bexists\b', 'verif_exists', count=3)     # `exists` is a Verus keyword: the local variable is renamed
     g.apply_overlay('add_proxy')
     U.add_fn(g)
+    h = X.fn('get_failures')
+    h.r1_logging()
+    h.replace('R13', 'let now = Utc::now();', 'let now = shim_now();', count=1)
+    h.replace('R13', 'failure_ttl: chrono::Duration,', 'failure_ttl: Duration,', count=1)
+    vlib.d9_values_mut(h)
+    vlib.d15_hashmap_retain(h)
+    vlib.d15_hashmap_retain(h)
+    vlib.d16_filter_filter_map_collect(h, 'String')
+    # R13b: the freshness test `now - <report time as DateTime> < failure_ttl` (chrono arithmetic) -> uninterpreted predicate fresh(now, t, ttl);
+    # the pattern must match literally, otherwise the run is undecided
+    h.sub('R13b', r'\{\s*let report_datetime =\s*DateTime::<Utc>::from_utc\(NaiveDateTime::from_timestamp\(\*report_time, 0\), Utc\);\s*now - report_datetime < failure_ttl\s*\}',
+          '{ shim_fresh(&now, *report_time, &failure_ttl) }', count=1)
+    h.replace('R-clone', 'Some(address.clone())', 'Some(shim_clone_string(address))', count=1)
+    h.apply_overlay('get_failures')
+    U.add_fn(h)
     U.add("}\n} // verus!\nfn main() {}\n")
     U.trust('chrono::Utc::now().timestamp() is some i64 (R13)', 'entry(k).or_insert_with(HashMap::new) == entry(k).or_insert(HashMap::new()) (R-orinsert)')
 
